@@ -243,7 +243,7 @@ pub fn exec(song: &mut Song, tokens: &Vec<Token>) -> bool {
             TokenType::NRPNCommand => exec_cc_rpn_nrpn(song, t, 99, 98, 6),
             TokenType::PitchBend => {
                 let val = var_extract(&t.data[0], song).to_i();
-                let val = if t.value_i == 0 { val * 128 } else { val + 8192 };
+                let val = if t.value_i == 0 { val.wrapping_mul(128) } else { val.wrapping_add(8192) };
                 song.add_event(Event::pitch_bend(
                     trk!(song).timepos,
                     trk!(song).channel,
@@ -389,7 +389,7 @@ pub fn exec(song: &mut Song, tokens: &Vec<Token>) -> bool {
                     },
                     0x02 => { // Master Balance (0x02) 14bit
                         let mut val = if data.len() >= 1 { data[0].to_i() } else { 0 };
-                        val += 8192;
+                        val = val.wrapping_add(8192);
                         let val_lsb = (val & 0x7F) as isize;
                         let val_msb = ((val >> 7) & 0x7F) as isize;
                         event = Some(Event::sysex(
@@ -783,8 +783,8 @@ pub fn exec(song: &mut Song, tokens: &Vec<Token>) -> bool {
                     '<' => c = SValue::from_b(a.lt(b)),
                     '≦' => c = SValue::from_b(a.lteq(b)),
                     '+' => c = a.add(b),
-                    '-' => c = SValue::from_i(a.to_i() - b.to_i()),
-                    '*' => c = SValue::from_i(a.to_i() * b.to_i()),
+                    '-' => c = SValue::from_i(a.to_i().wrapping_sub(b.to_i())),
+                    '*' => c = SValue::from_i(a.to_i().wrapping_mul(b.to_i())),
                     '/' => c = a.div(b),
                     '%' => c = SValue::from_i(if b.to_i() == 0 { 0 } else { a.to_i().wrapping_rem(b.to_i()) }), // x % 0 = 0 (like x / 0)
                     _ => {
@@ -832,7 +832,7 @@ pub fn exec(song: &mut Song, tokens: &Vec<Token>) -> bool {
                 let varname = t.value_s.clone().unwrap_or(String::new());
                 let val_inc = t.value_i;
                 let val = song.variables_get(&varname).unwrap_or(&SValue::Int(0));
-                song.variables_insert(&varname, SValue::from_i(val.to_i() + val_inc));
+                song.variables_insert(&varname, SValue::from_i(val.to_i().wrapping_add(val_inc)));
                 // let val = song.variables_get(&varname).unwrap_or(&SValue::Int(0));
                 // println!("inc={}={}", varname, val.to_i());
             },
@@ -1065,7 +1065,7 @@ fn exec_sys_function(song: &mut Song, t: &Token) -> bool {
         if arg_count >= 2 {
             let min = args[0].to_i();
             let max = args[1].to_i();
-            let range = max - min + 1;
+            let range = max.wrapping_sub(min).wrapping_add(1);
             let r = (song.rand() & 0x7FFFFFFF) as isize;
             let rnd = if range == 0 { min } else { r % range + min };
             song.stack.push(SValue::from_i(rnd));
@@ -1380,7 +1380,7 @@ fn var_extract(val: &SValue, song: &mut Song) -> SValue {
 fn tempo_change_a_to_b(song: &mut Song, a: isize, b: isize, len: isize) {
     let step = (song.timebase * 4) / 16;
     let step_cnt = len / step;
-    let width = b - a;
+    let width = b.wrapping_sub(a);
     let timepos = trk!(song).timepos;
     for i in 0..step_cnt {
         let v = (a as f32) + (width as f32) * (i as f32 / step_cnt as f32);
@@ -1436,7 +1436,7 @@ fn exec_div(song: &mut Song, t: &Token) {
         let trk = &mut song.tracks[song.cur_track];
         let div_len = calc_length(len_s, song.timebase, trk.length);
         let note_len = if cnt > 0 { div_len / cnt } else { 0 };
-        timepos_end = trk.timepos + div_len;
+        timepos_end = trk.timepos.wrapping_add(div_len);
         length_org = trk.length;
         trk.length = note_len;
     }
@@ -1476,7 +1476,7 @@ fn exec_harmony(song: &mut Song, t: &Token, flag_begin: bool) {
             let mut e = song.flags.harmony_events.pop().unwrap();
             e.time = song.flags.harmony_time;
             if note_qlen != 0 {
-                e.v2 = note_len * note_qlen / 100;
+                e.v2 = note_len.wrapping_mul(note_qlen) / 100;
             }
             if !note_vel.is_none() {
                 e.v3 = note_vel.to_i();
@@ -1503,13 +1503,13 @@ fn exec_get_time(song: &mut Song, t: &Token, cmd: &str) -> isize{
         runtime_error(song, &format!("[{}] needs 1 or 3 arguments", cmd));
         return 0;
     }
-    let mes = args[0].to_i() + song.flags.measure_shift;
+    let mes = args[0].to_i().wrapping_add(song.flags.measure_shift);
     let beat = args[1].to_i();
     let tick = args[2].to_i();
 
     // calc
     let base = song.timebase * 4 / song.timesig_deno;
-    let total = (mes - 1) * (base * song.timesig_frac) + (beat - 1) * base + tick;
+    let total = mes.wrapping_sub(1).wrapping_mul(base * song.timesig_frac).wrapping_add(beat.wrapping_sub(1).wrapping_mul(base)).wrapping_add(tick);
     total
 }
 
@@ -1530,7 +1530,7 @@ pub fn calc_length(len_str: &str, timebase: isize, def_len: isize) -> isize {
             res = cur.get_int(0);
         } else {
             let i = cur.get_int(4);
-            res = if i > 0 { timebase * 4 / i } else { 0 };
+            res = if i > 0 { timebase.wrapping_mul(4) / i } else { 0 };
         }
     }
     if cur.peek_n(0) == '.' {
@@ -1644,7 +1644,7 @@ fn set_note_info_with_default_value(note: &mut NoteInfo, song: &mut Song) {
         note.o = trk!(song).octave;
     }
     // calc note no
-    let mut noteno = note.o * 12 + note.no + note.flag;
+    let mut noteno = note.o.wrapping_mul(12).wrapping_add(note.no).wrapping_add(note.flag);
     // key_shift / key_flag / track_key
     if song.use_key_shift {
         noteno += if note.natural == 0 {
@@ -1652,8 +1652,8 @@ fn set_note_info_with_default_value(note: &mut NoteInfo, song: &mut Song) {
         } else {
             0
         };
-        noteno += song.key_shift;
-        noteno += trk!(song).track_key;
+        noteno = noteno.wrapping_add(song.key_shift);
+        noteno = noteno.wrapping_add(trk!(song).track_key);
     }
     note.no = noteno;
 }
@@ -1673,13 +1673,13 @@ fn exec_note(song: &mut Song, t: &Token) {
     let qlen = trk!(song).calc_qlen_on_note(note.qlen);
     let o_abs = trk!(song).calc_o_on_note(-1);
     if o_abs != -1 {// ノートはそのままでオクターブだけ変える
-        note.no = note.no % 12 + o_abs * 12; // set absolute octave
+        note.no = note.no % 12 + o_abs.wrapping_mul(12); // set absolute octave
     }
     // Random
     if trk!(song).o_rand > 0 { // octave randomize
         let r = song.calc_rand_value(0, trk!(song).o_rand);
         if r != 0 {
-            note.no += r * 12;
+            note.no = note.no.wrapping_add(r.wrapping_mul(12));
         }
     }
     let v = if trk!(song).v_rand > 0 {
@@ -1708,9 +1708,9 @@ fn exec_note(song: &mut Song, t: &Token) {
     // check range
     let v = value_range(0, v, 127);
     // event
-    let event = Event::note(timepos + t, trk!(song).channel, note.no, notelen_real, v);
+    let event = Event::note(timepos.wrapping_add(t), trk!(song).channel, note.no, notelen_real, v);
     // println!("- {}: note(no={},len={},qlen={},v={},t={},o={})", trk.timepos, noteno, notelen_real, qlen, v, t, o);
-    trk!(song).timepos += notelen;
+    trk!(song).timepos = trk!(song).timepos.wrapping_add(notelen);
 
     // octave_once?
     if song.flags.octave_once != 0 {
@@ -1953,7 +1953,7 @@ fn exec_note_n(song: &mut Song, t: &Token) {
     // range
     let v = value_range(0, v, 127);
     let event = Event::note(
-        trk!(song).timepos + t,
+        trk!(song).timepos.wrapping_add(t),
         trk!(song).channel,
         data_note_no + track_key + key_shift,
         notelen_real,
@@ -1964,14 +1964,14 @@ fn exec_note_n(song: &mut Song, t: &Token) {
     trk!(song).write_cc_on_note_wave(start_pos);
     // write event
     trk!(song).events.push(event);
-    trk!(song).timepos += notelen;
+    trk!(song).timepos = trk!(song).timepos.wrapping_add(notelen);
 }
 
 fn exec_rest(song: &mut Song, t: &Token) {
     let trk = &mut song.tracks[song.cur_track];
     let data_note_len = t.data[0].to_s();
     let notelen = calc_length(&data_note_len, song.timebase, trk.length);
-    trk.timepos += notelen * t.value_i;
+    trk.timepos = trk.timepos.wrapping_add(notelen.wrapping_mul(t.value_i));
 }
 
 fn exec_voice(song: &mut Song, t: &Token) {
